@@ -30,6 +30,10 @@ type Op struct {
 	K string `json:"k"`
 	C int    `json:"c,omitempty"`
 	V uint64 `json:"v,omitempty"`
+	// Late ("stopsub" only, random part): the adjudicator subscription hands
+	// over one more registered event (version 0) at the moment the watcher
+	// closes it, i.e. while StopWatching is under way
+	Late bool `json:"late,omitempty"`
 }
 
 func (o Op) String() string { return fmt.Sprintf("%s(c=%d,v=%d)", o.K, o.C, o.V) }
